@@ -467,17 +467,36 @@ func pruneInfeasible(o *Origins, f *ssa.Function, cut *Cut) {
 			if !ok {
 				continue
 			}
-			bin, ok := ifi.Cond.(*ssa.BinOp)
-			if !ok || (bin.Op.String() != "==" && bin.Op.String() != "!=") {
+			var truth bool
+			if bin, ok := ifi.Cond.(*ssa.BinOp); ok && (bin.Op.String() == "==" || bin.Op.String() == "!=") {
+				x, y := oc.Of(bin.X), oc.Of(bin.Y)
+				if x.K != "const" || y.K != "const" {
+					continue
+				}
+				truth = x.S == y.S
+				if bin.Op.String() == "!=" {
+					truth = !truth
+				}
+			} else if isBool(ifi.Cond.Type()) {
+				// a boolean flag (possibly negated) that is constant on the remaining paths
+				v, neg := ifi.Cond, false
+				for {
+					u, ok := v.(*ssa.UnOp)
+					if !ok || u.Op.String() != "!" {
+						break
+					}
+					v, neg = u.X, !neg
+				}
+				if _, isBin := v.(*ssa.BinOp); isBin {
+					continue
+				}
+				x := oc.Of(v)
+				if x.K != "const" || (x.S != "true" && x.S != "false") {
+					continue
+				}
+				truth = (x.S == "true") != neg
+			} else {
 				continue
-			}
-			x, y := oc.Of(bin.X), oc.Of(bin.Y)
-			if x.K != "const" || y.K != "const" {
-				continue
-			}
-			truth := x.S == y.S
-			if bin.Op.String() == "!=" {
-				truth = !truth
 			}
 			dead := 0
 			if truth {
